@@ -52,6 +52,28 @@ func main() {
 		for _, ts := range r.TagSites(Scope{Include: []string{"pkg/"}}) {
 			fmt.Printf("%-60s %-12s %-50s %s\n", prog.RelPos(ts.Call.Pos()), shortType(ts.Type), ts.Shape, FuncKey(ts.Fn.Obj))
 		}
+	case "dump-readers":
+		prog, err := LoadProgram(nil, false)
+		if err != nil {
+			fmt.Fprintln(os.Stderr, err)
+			os.Exit(2)
+		}
+		r := NewRun("C07", "dump", prog)
+		cnt := map[string]int{}
+		for _, rs := range r.ReaderSites(Scope{Include: []string{"pkg/"}}) {
+			cnt[rs.Origin]++
+			if len(os.Args) > 2 {
+				fmt.Printf("%-55s %-28s %-40s %s\n", prog.RelPos(rs.Call.Pos()), rs.Origin, rs.Shape, rs.Callee)
+			}
+		}
+		ks := []string{}
+		for k := range cnt {
+			ks = append(ks, k)
+		}
+		sort.Strings(ks)
+		for _, k := range ks {
+			fmt.Printf("%5d %s\n", cnt[k], k)
+		}
 	case "mutate":
 		os.Exit(runMutateCLI(os.Args[2:]))
 	case "replay":
